@@ -8,6 +8,7 @@ import (
 	"github.com/ChrisTrenkamp/xsel/grammar/parser/bsr"
 	"github.com/ChrisTrenkamp/xsel/grammar/parser/symbols"
 	"github.com/ChrisTrenkamp/xsel/node"
+	"github.com/ChrisTrenkamp/xsel/store"
 )
 
 var errQueryNonNodeset = fmt.Errorf("cannot query nodes on non-NodeSet's")
@@ -80,6 +81,7 @@ func execStep(context *exprContext, expr *grammar.Grammar) error {
 		}
 
 		context.result = selectChild(nodeSet)
+		context.principal = principalElement
 	}
 
 	return execContext(context, expr.Next(nextBsr))
@@ -188,6 +190,22 @@ func execNodeTestProcInstTargetTest(context *exprContext, expr *grammar.Grammar)
 	return nil
 }
 
+// isPrincipalNodeType reports whether the cursor holds a node of the principal
+// node type of the axis of the current step.  Name tests only ever select
+// nodes of that type (e.g. self::* does not select an attribute).
+func isPrincipalNodeType(context *exprContext, cursor store.Cursor) bool {
+	switch cursor.Node().(type) {
+	case node.Namespace:
+		return context.principal == principalNamespace
+	case node.Attribute:
+		return context.principal == principalAttribute
+	case node.Element:
+		return context.principal == principalElement
+	}
+
+	return false
+}
+
 func execNameTestAnyElement(context *exprContext, expr *grammar.Grammar) error {
 	nodeSet, ok := context.result.(NodeSet)
 
@@ -198,11 +216,7 @@ func execNameTestAnyElement(context *exprContext, expr *grammar.Grammar) error {
 	result := make(NodeSet, 0)
 
 	for _, i := range nodeSet {
-		if _, ok := i.Node().(node.NamedNode); ok {
-			result = append(result, i)
-		}
-
-		if _, ok := i.Node().(node.Namespace); ok {
+		if isPrincipalNodeType(context, i) {
 			result = append(result, i)
 		}
 	}
@@ -246,7 +260,7 @@ func nameTestNamespaceAnyLocal(namespaceLookup string, context *exprContext, exp
 	result := make(NodeSet, 0)
 
 	for _, i := range nodeSet {
-		if node, ok := i.Node().(node.NamedNode); ok {
+		if node, ok := i.Node().(node.NamedNode); ok && isPrincipalNodeType(context, i) {
 			if node.Space() == namespaceValue {
 				result = append(result, i)
 			}
@@ -287,7 +301,7 @@ func nameTestLocalAnyNamespace(localValue string, context *exprContext, expr *gr
 	result := make(NodeSet, 0)
 
 	for _, i := range nodeSet {
-		if node, ok := i.Node().(node.NamedNode); ok {
+		if node, ok := i.Node().(node.NamedNode); ok && isPrincipalNodeType(context, i) {
 			if node.Local() == localValue {
 				result = append(result, i)
 			}
@@ -366,7 +380,7 @@ func nameTestQNameNamespaceWithLocal(namespaceLookup, local string, context *exp
 	result := make(NodeSet, 0)
 
 	for _, i := range nodeSet {
-		if node, ok := i.Node().(node.NamedNode); ok {
+		if node, ok := i.Node().(node.NamedNode); ok && isPrincipalNodeType(context, i) {
 			if node.Local() == local && node.Space() == namespaceValue {
 				result = append(result, i)
 			}
@@ -388,7 +402,7 @@ func execNameTestQNameLocalOnly(context *exprContext, expr *grammar.Grammar) err
 	queryName := expr.GetString()
 
 	for _, child := range nodeSet {
-		if elem, ok := child.Node().(node.NamedNode); ok {
+		if elem, ok := child.Node().(node.NamedNode); ok && isPrincipalNodeType(context, child) {
 			if elem.Space() == "" && elem.Local() == queryName {
 				nextResult = append(nextResult, child)
 			}
@@ -417,12 +431,14 @@ func execAxisName(context *exprContext, expr *grammar.Grammar) error {
 
 	axis := expr.GetString()
 	var result Result
+	context.principal = principalElement
 
 	switch axis {
 	case "child":
 		result = selectChild(nodeSet)
 	case "attribute":
 		result = selectAttributes(nodeSet)
+		context.principal = principalAttribute
 	case "ancestor":
 		result = selectAncestor(nodeSet)
 	case "ancestor-or-self":
@@ -437,6 +453,7 @@ func execAxisName(context *exprContext, expr *grammar.Grammar) error {
 		result = selectFollowingSibling(nodeSet)
 	case "namespace":
 		result = selectNamespace(nodeSet)
+		context.principal = principalNamespace
 	case "parent":
 		result = selectParent(nodeSet)
 	case "preceding":
@@ -471,6 +488,7 @@ func execAbbreviatedAxisSpecifier(context *exprContext, expr *grammar.Grammar) e
 	}
 
 	context.result = selectAttributes(nodeSet)
+	context.principal = principalAttribute
 	return nil
 }
 
